@@ -7,7 +7,7 @@ probe listeners and the browser callbacks are compared with the model.
 """
 from sim import wire
 from sim.driver import Driver
-from sim.models import ModelCache, lib_ident
+from sim.models import DupGuard, ModelCache, lib_ident
 from sim.net import FaultConfig
 from sim.world import World, zeroconf
 
@@ -114,21 +114,6 @@ def gen_step(rng, last_ttls):
     if k < 0.95:
         return rng.random() * 200.0
     return rng.choice([600.0, 1125.0, 1200.0, 3375.0, 4499.0, 4500.0, 4501.0, 7200.0])
-
-
-class DupGuard:
-    """Model of the per-socket duplicate-datagram guard (responses: identical bytes within 1000 ms)."""
-
-    def __init__(self):
-        self.data = None
-        self.t = 0.0
-        self.last_qu = False
-
-    def suppressed(self, data, t_ms):
-        return self.data == data and (t_ms - 1000.0) < self.t and not self.last_qu
-
-    def accept(self, data, t_ms, has_qu):
-        self.data, self.t, self.last_qu = data, t_ms, has_qu
 
 
 class Probe(RecordUpdateListener):
